@@ -13,7 +13,7 @@ RULE = (
     "fit on data of 20-120 rows of full column rank. Oracle = mean by recursive substitution, covariance two ways "
     "((I-B)^-T Omega (I-B)^-1 and the recursive rule, which must agree), conditional Gaussian via np.ix_ blocks, "
     "np.linalg.lstsq with intercept. GaussianDistribution: covariance A A^T + eps I over 1-5 variables; "
-    "marginalize / reduce vs block formulas, canonical form vs pdf at points, product vs pointwise product of "
+    "marginalize / reduce vs block formulas, canonical form vs pdf at points, the canonical form's own reduce / marginalize / product / divide / back-conversion vs its log-quadratic function, product vs pointwise product of "
     "densities. non-trivial = >= 3 nodes with a node having >= 2 parents / >= 2 missing variables / overlapping "
     "product scopes; distinct = sha1 of the case."
 )
@@ -335,6 +335,100 @@ def check_gd(case, out):
                 if abs(lhs - rhs) > 1e-8 * max(1.0, abs(rhs)):
                     out.fail("to_canonical_factor:density", f"log value {lhs!r} vs log pdf {rhs!r} at {x.tolist()}")
                     break
+    # the canonical form's own operations against the function exp(-1/2 x'Kx + h'x + g) they are defined on
+    if cf is not RAISED and list(cf.variables) == list(names):
+        def logval(c, x):
+            Kc_ = np.asarray(c.K, dtype=float).reshape(len(x), len(x))
+            h_ = np.asarray(c.h, dtype=float).ravel()
+            g_ = float(np.asarray(c.g).ravel()[0]) if np.ndim(c.g) else float(c.g)
+            return float(-0.5 * x @ Kc_ @ x + h_ @ x + g_)
+
+        def close(a, b):
+            return abs(a - b) <= 1e-7 * max(1.0, abs(a), abs(b))
+
+        back = out.call("canonical.to_joint_gaussian", cf.to_joint_gaussian)
+        out.evals += 1
+        if back is not RAISED:
+            if list(back.variables) != list(names) or np.max(np.abs(np.asarray(back.mean, dtype=float).ravel() - mu)) > 1e-7 * max(1.0, np.max(np.abs(mu))) \
+                    or np.max(np.abs(np.asarray(back.covariance, dtype=float) - cov)) > 1e-7 * max(1.0, np.max(np.abs(cov))):
+                out.fail("canonical.to_joint_gaussian:round_trip", f"{back.variables} mean {np.asarray(back.mean).ravel().tolist()} vs {mu.tolist()}")
+        if sub and keep:
+            out.cls("canonical_reduce_marginalize")
+            vals = np.array(case["vals"])
+            order = list(zip(sub, case["vals"]))
+            order = [order[sub.index(v)] for v in case["perm"]]
+            for inplace in (False, True):
+                c2 = cf.copy()
+                r = out.call("canonical.reduce", c2.reduce, [(v, x) for v, x in order], inplace=inplace)
+                out.evals += 1
+                if r is not RAISED:
+                    res = c2 if inplace else r
+                    if res is None or list(res.variables) != keep:
+                        out.fail("canonical.reduce:variables", f"{None if res is None else res.variables} vs {keep}")
+                    else:
+                        for pnt in case["points"]:
+                            xk = np.array(pnt[: len(keep)])
+                            full = np.zeros(n)
+                            full[ki] = xk
+                            full[si] = vals
+                            if not close(logval(res, xk), logval(cf, full)):
+                                out.fail("canonical.reduce:value", f"log {logval(res, xk)!r} vs {logval(cf, full)!r} reducing {order} in {names}")
+                                break
+                    if not inplace and (list(c2.variables) != list(names) or np.max(np.abs(np.asarray(c2.K, dtype=float) - np.asarray(cf.K, dtype=float))) > 0):
+                        out.fail("canonical.reduce:original_modified", "")
+                c2 = cf.copy()
+                r = out.call("canonical.marginalize", c2.marginalize, list(case["perm"]), inplace=inplace)
+                out.evals += 1
+                if r is not RAISED:
+                    res = c2 if inplace else r
+                    if res is None or list(res.variables) != keep:
+                        out.fail("canonical.marginalize:variables", f"{None if res is None else res.variables} vs {keep}")
+                    else:
+                        # K', h', g' of the marginal density N(mu_keep, cov_keep), compared one by one
+                        ck = cov[np.ix_(ki, ki)]
+                        wK = np.linalg.inv(ck)
+                        wh = wK @ mu[ki]
+                        wg = float(-0.5 * mu[ki] @ wK @ mu[ki] - 0.5 * (len(ki) * np.log(2 * np.pi) + np.log(np.linalg.det(ck))))
+                        gK = np.asarray(res.K, dtype=float).reshape(len(ki), len(ki))
+                        gh = np.asarray(res.h, dtype=float).ravel()
+                        gg = float(np.asarray(res.g).ravel()[0]) if np.ndim(res.g) else float(res.g)
+                        scale = max(1.0, float(np.max(np.abs(wK))))
+                        if np.max(np.abs(gK - wK)) > 1e-7 * scale:
+                            out.fail("canonical.marginalize:K", f"summing out {case['perm']} of {names}: K {gK.tolist()} vs {wK.tolist()}")
+                        elif np.max(np.abs(gh - wh)) > 1e-7 * max(scale, float(np.max(np.abs(wh)))):
+                            out.fail("canonical.marginalize:h", f"summing out {case['perm']} of {names}: h {gh.tolist()} vs {wh.tolist()}")
+                        elif not close(gg, wg):
+                            out.fail("canonical.marginalize:g", f"summing out {case['perm']} of {names}: g {gg!r} vs {wg!r}")
+                    if not inplace and (list(c2.variables) != list(names) or np.max(np.abs(np.asarray(c2.K, dtype=float) - np.asarray(cf.K, dtype=float))) > 0):
+                        out.fail("canonical.marginalize:original_modified", "")
+        # canonical product / divide: log values add / subtract on the union scope
+        names2c = case["names2"]
+        mc = len(names2c)
+        A2c = np.array(case["A2"]).reshape(mc, mc)
+        cov2c = A2c @ A2c.T + case["eps"] * np.eye(mc)
+        cf2 = out.call("to_canonical_factor", GD(list(names2c), list(case["mean2"]), cov2c.tolist()).to_canonical_factor)
+        if cf2 is not RAISED:
+            for opname, sign in (("mul", 1.0), ("truediv", -1.0), ("product", 1.0), ("divide", -1.0)):
+                if opname == "mul":
+                    r = out.call("canonical[*]", lambda: cf * cf2)
+                elif opname == "truediv":
+                    r = out.call("canonical[/]", lambda: cf / cf2)
+                else:
+                    r = out.call(f"canonical.{opname}", getattr(cf.copy(), opname), cf2, inplace=False)
+                out.evals += 1
+                if r is RAISED:
+                    continue
+                allc = list(names) + [v for v in names2c if v not in names]
+                if r is None or set(r.variables) != set(allc):
+                    out.fail(f"canonical.{opname}:variables", f"{None if r is None else r.variables} vs {allc}")
+                    continue
+                for pnt in case["points"]:
+                    xv = dict(zip(allc, pnt[: len(allc)]))
+                    want = logval(cf, np.array([xv[v] for v in names])) + sign * logval(cf2, np.array([xv[v] for v in names2c]))
+                    got = logval(r, np.array([xv[v] for v in r.variables]))
+                    if not close(got, want):
+                        out.fail(f"canonical.{opname}:value", f"log {got!r} vs {want!r}; scopes {names} and {names2c}")
+                        break
     # product: density proportional to the pointwise product
     names2 = case["names2"]
     m = len(names2)
@@ -380,12 +474,84 @@ def check_gd(case, out):
     out.sample = {"names": names, "sub": sub, "names2": names2}
 
 
+# ------------------------------------------------------------------------------- LinearGaussianCPD.fit
+@st.composite
+def cpdfit_case(draw):
+    k = draw(st.integers(0, 3))
+    parents = list(draw(st.permutations(["A", "B", "C", "D", "E"])))[:k]
+    nrow = draw(st.integers(k + 2, 30))
+    rows = []
+    for r in range(nrow):
+        if r <= k:  # the first k+1 rows make the design matrix [1, x] of full column rank by construction
+            x = [3.0 if j == r - 1 else 0.0 for j in range(k)]
+        else:
+            x = [draw(st.integers(-6, 6)) / 2.0 for _ in range(k)]
+        y = draw(st.integers(-20, 20)) / 4.0
+        rows.append([y] + x)
+    cols = ["(Y|X)"] + parents
+    order = list(draw(st.permutations(list(range(len(cols))))))
+    return {"parents": parents, "rows": rows, "column_order": order, "evidence_order": list(draw(st.permutations(parents)))}
+
+
+def check_cpdfit(case, out):
+    """LinearGaussianCPD.fit(estimator='MLE') = least squares with intercept and the root of the mean squared residual"""
+    import numpy as np
+    import pandas as pd
+    from pgmpy.factors.continuous import LinearGaussianCPD
+
+    parents, ev = case["parents"], case["evidence_order"]
+    k = len(parents)
+    cols = ["(Y|X)"] + parents
+    data = np.array(case["rows"], dtype=float)
+    df = pd.DataFrame(data, columns=cols)[[cols[i] for i in case["column_order"]]]
+    out.cls(f"parents{k}")
+    out.nontrivial = k >= 2 and ev != parents
+    cpd = out.call("LinearGaussianCPD", LinearGaussianCPD, "Y", [0.0] * (k + 1), 1.0, list(ev))
+    if cpd is RAISED:
+        return
+    res = out.call("LinearGaussianCPD.fit", cpd.fit, df, states=list(df.columns), estimator="MLE")
+    if res is RAISED:
+        return
+    beta, sigma = res
+    y = data[:, 0]
+    D = np.column_stack([np.ones(len(y))] + [data[:, 1 + parents.index(p)] for p in ev])
+    wb = np.linalg.lstsq(D, y, rcond=None)[0]
+    ws = float(np.sqrt(np.mean((y - D @ wb) ** 2)))
+    gb = np.asarray(beta, dtype=float).ravel()
+    if gb.shape != wb.shape or np.max(np.abs(gb - wb)) > 1e-6 * max(1.0, float(np.max(np.abs(wb)))):
+        out.fail("LinearGaussianCPD.fit:coefficients", f"got {gb.tolist()} want {wb.tolist()} (intercept, then {ev})")
+    elif not (abs(float(sigma) - ws) <= 1e-6 * max(1.0, ws)) and ws > 1e-6:
+        out.fail("LinearGaussianCPD.fit:residual_spread", f"got {float(sigma)!r} want {ws!r}")
+    out.sample = {"parents": parents, "evidence_order": ev, "n_rows": len(y)}
+
+
 SUBCHECKS = [
     Sub("lgbn", check_lgbn, strategy=lambda tier: lg_case(), n={"quick": 150, "thorough": 2500},
         shards={"quick": 6, "thorough": 16}, doc="to_joint_gaussian, predict (conditional mean/covariance), fit (least squares) vs multivariate-normal algebra"),
     Sub("simulate", check_simulate, strategy=lambda tier: lg_case(), n={"quick": 15, "thorough": 150},
         shards={"quick": 2, "thorough": 8}, doc="LGBN.simulate sample mean / covariance within a 1e-9 tail bound; reproducible with seed"),
+    Sub("cpd_fit", check_cpdfit, strategy=lambda tier: cpdfit_case(), n={"quick": 100, "thorough": 1500},
+        shards={"quick": 2, "thorough": 4}, doc="LinearGaussianCPD.fit (MLE) vs least squares with intercept and root mean squared residual"),
     Sub("gaussian_distribution", check_gd, strategy=lambda tier: gd_case(), n={"quick": 200, "thorough": 3000},
         shards={"quick": 4, "thorough": 8}, doc="GaussianDistribution marginalize / reduce / canonical form / product vs block formulas and densities"),
 ]
-PREDICATES = {}
+def _quadratic_terms_differ(case):
+    """h_j' K_jj h_j differs from h_j' K_jj^-1 h_j for the block that is summed out (the two forms coincide e.g. for zero means)"""
+    import numpy as np
+
+    names = case["names"]
+    n = len(names)
+    A = np.array(case["A"]).reshape(n, n)
+    cov = A @ A.T + case["eps"] * np.eye(n)
+    K = np.linalg.inv(cov)
+    h = K @ np.array(case["mean"])
+    j = [names.index(v) for v in case["sub"]]
+    if not j:
+        return False
+    Kjj = K[np.ix_(j, j)]
+    a = float(h[j] @ Kjj @ h[j])
+    b = float(h[j] @ np.linalg.inv(Kjj) @ h[j])
+    return abs(a - b) > 1e-9 * max(1.0, abs(a), abs(b))
+
+
+PREDICATES = {"marginalized_block_quadratic_terms_differ": _quadratic_terms_differ}
